@@ -60,7 +60,8 @@ type Case struct {
 	Pred     int               `json:"pred"`
 	Signer   int               `json:"signer"` // 0 absent 1 ok 2 fails 3 ok with empty result
 	Tag      string            `json:"tag,omitempty"`
-	Types    []string          `json:"types"` // hex
+	Types    []string          `json:"types"`         // hex
+	Ctx      int               `json:"ctx,omitempty"` // context handed to Process (jgen.MkContext)
 	NilEvent bool              `json:"nil_event,omitempty"`
 	Type     string            `json:"type"` // hex
 	Time     jgen.TimeSpec     `json:"time"`
@@ -224,15 +225,15 @@ func genHistRandom(em *emitter, r *hc.Rand, n int) {
 	g := &jgen.Gen{R: r, Stats: em.stats}
 	for i := 0; i < n; i++ {
 		c := Case{Gen: "history-random", Source: "https://src.example", Schema: []string{"", "https://schema.example/s"}[r.Intn(2)],
-			Format: []string{"", "cloudevents-json", "cloudevents-text"}[r.Intn(3)], Signer: []int{0, 0, 1, 2, 3}[r.Intn(5)], Tag: hx("I-"), Pred: []int{0, 0, 1, 2}[r.Intn(4)]}
+			Format: []string{"", "cloudevents-json", "cloudevents-text"}[r.Intn(3)], Signer: []int{0, 0, 1, 2, 3, 4}[r.Intn(6)], Tag: hx("I-"), Pred: []int{0, 0, 1, 2}[r.Intn(4)]}
 		listed := hex.EncodeToString(append([]byte{'t'}, g.String(2)...))
 		c.Types = []string{hx("zz"), listed}
 		for j, m := 0, 2+r.Intn(7); j < m; j++ {
 			if r.Chance(2, 5) {
-				c.Hist = append(c.Hist, HStep{Rotate: true, Signer: []int{0, 1, 1, 2, 3}[r.Intn(5)], Tag: hex.EncodeToString(g.String(2))})
+				c.Hist = append(c.Hist, HStep{Rotate: true, Signer: []int{0, 1, 1, 2, 3, 4}[r.Intn(6)], Tag: hex.EncodeToString(g.String(2))})
 				continue
 			}
-			ev := &Case{Type: listed, Time: jgen.GenTime(r), PKind: []string{"plain", "id", "data", "both"}[r.Intn(4)], PID: hx("i1"), Payload: g.Payload(2, 10)}
+			ev := &Case{Ctx: jgen.GenCtx(r), Type: listed, Time: jgen.GenTime(r), PKind: []string{"plain", "id", "data", "both"}[r.Intn(4)], PID: hx("i1"), Payload: g.Payload(2, 10)}
 			if r.Chance(1, 3) {
 				ev.Type = hex.EncodeToString(g.String(2))
 			}
@@ -325,6 +326,14 @@ func mkSigner(kind int, tag []byte, rec *[][]byte) ce.Signer {
 		return func(_ context.Context, b []byte) (string, error) {
 			*rec = append(*rec, append([]byte(nil), b...))
 			return "", nil
+		}
+	case 4: // honours the context: refuses to sign once it is done
+		return func(ctx context.Context, b []byte) (string, error) {
+			*rec = append(*rec, append([]byte(nil), b...))
+			if err := ctx.Err(); err != nil {
+				return "", err
+			}
+			return sigFn(tag, b), nil
 		}
 	}
 	return nil
@@ -430,7 +439,9 @@ func runCaseOn(c Case, sh *shared) (ret *retained, obs Obs, nontrivial bool) {
 				obs.Panic = fmt.Sprint(p)
 			}
 		}()
-		out, err = node.Process(context.Background(), e)
+		ctx, release, _ := jgen.MkContext(c.Ctx)
+		defer release()
+		out, err = node.Process(ctx, e)
 	}()
 	if sh != nil {
 		calls = sh.calls
@@ -513,8 +524,9 @@ func runCaseOn(c Case, sh *shared) (ret *retained, obs Obs, nontrivial bool) {
 	for i, b := range calls {
 		callsLit[i] = jgen.Bytes(b)
 	}
+	_, _, ctxDone := jgen.MkContext(c.Ctx)
 	prefix := fmt.Sprintf("{| k_cfg := {| k_nil := %s; k_source := %s; k_schema := %s; k_format := %s; k_pred := %d; k_signer := %d; k_tag := %s; k_types := [%s] |};\n"+
-		"   k_evnil := %s; k_type := %s; k_time := %s; k_payload := {| y_id := %s; y_data := %s |}; k_pre := %s; k_fresh := %s;\n"+
+		"   k_ctx_done := "+hc.B(ctxDone)+"; k_evnil := %s; k_type := %s; k_time := %s; k_payload := {| y_id := %s; y_data := %s |}; k_pre := %s; k_fresh := %s;\n"+
 		"   k_obs := {| b_err := %s; b_out := %d; b_table := %s; b_frame := %s; b_calls := [%s]; b_time_ok := %s; b_pred_err := %s",
 		hc.B(c.NilNode), jgen.OptBytes(srcTok, srcOK), jgen.OptBytes(schTok, schOK), fmtLit(c.Format), c.Pred, c.Signer, jgen.Bytes(tag), strings.Join(typesLit, "; "),
 		hc.B(c.NilEvent), jgen.Bytes(ty), jgen.OptBytes(c.Time.Text(), c.Time.Encodable()), idLit, dataLit, preLit, jgen.Bytes(fresh),
@@ -764,6 +776,20 @@ func genGrid(em *emitter) {
 			em.emit(Case{Gen: "grid-source", Source: src, Format: format, Signer: 1, Tag: hx("S"), Types: []string{hx("t")}, Type: hx("t"), Time: jgen.Times[1], PKind: "plain", Payload: simpleMap})
 		}
 	}
+	// every kind of context x signer absent / ok / failing / honouring the context x listed / unlisted x predicate: the
+	// context matters only through the answer of a signer that honours it
+	for ctx := 0; ctx < jgen.CtxKinds; ctx++ {
+		for _, signer := range []int{0, 1, 2, 4} {
+			for _, types := range [][]string{{hx("t")}, {hx("other")}} {
+				for _, format := range []string{"", "cloudevents-text"} {
+					for _, pred := range []int{0, 2} {
+						em.emit(Case{Gen: "grid-ctx", Ctx: ctx, Source: "https://src.example", Format: format, Pred: pred, Signer: signer, Tag: hx("C-"),
+							Types: types, Type: hx("t"), Time: jgen.Times[1], PKind: []string{"plain", "id"}[ctx%2], PID: hx("i"), Payload: simpleMap})
+					}
+				}
+			}
+		}
+	}
 	for _, format := range []string{"", "cloudevents-text", "bogus"} {
 		for signer := 0; signer <= 3; signer++ {
 			base := Case{Gen: "grid-edge", Source: "https://src.example", Format: format, Signer: signer, Tag: hx("q\"<\xff"), Types: []string{hx("t")}, Type: hx("t"), Time: jgen.Times[3], PKind: "plain", Payload: simpleMap}
@@ -833,7 +859,8 @@ func genRandom(em *emitter, r *hc.Rand, n, depth int) {
 		c.Schema = []string{"", "", "https://schema.example/s", "s:<&>", "<empty>"}[r.Intn(5)]
 		c.Format = []string{"", "cloudevents-json", "cloudevents-text", "cloudevents-text", "bogus", "json"}[r.Intn(6)]
 		c.Pred = []int{0, 0, 1, 2, 3, 4}[r.Intn(6)]
-		c.Signer = []int{0, 1, 1, 1, 2, 3}[r.Intn(6)]
+		c.Signer = []int{0, 1, 1, 1, 2, 3, 4, 4}[r.Intn(8)]
+		c.Ctx = jgen.GenCtx(r)
 		c.Tag = hex.EncodeToString(g.String(3))
 		if r.Chance(1, 2) { // signer results of many lengths (the result is tag + 4 bytes)
 			n := []int{0, 1, 4, 8, 9, 12, 13, 28, 29, 60, 61, 124, 250}[r.Intn(13)]
